@@ -819,7 +819,7 @@ def smap_method(eng, m, name, args, kwargs, st):
             return mk_str(m.get(key))
         if z3.is_false(has):
             return default
-        if isinstance(default, (str, SStr)):
+        if isinstance(default, (str, SStr)) or (isinstance(default, FV) and all(isinstance(x, str) for x in default.values)):
             return mk_str(z3.If(has, m.get(key), str_z(default)))
         # default of another kind (usually None): merge as a finite choice over presence
         if default is None or is_concrete(default):
